@@ -363,6 +363,25 @@ def lift_block(fb, it):
             j += 1
             done += 1
         block = '\n'.join(blines)
+    until = fb.lift.get('until') or fb.opts.get('until')
+    if until:
+        # R5e: the statements of the block from the first line matching the regex on are dropped and the expression given by yield=
+        # becomes the value of the block (what follows the part under contract - e.g. a call through a `dyn FnMut` - stays outside)
+        blines = block.split('\n')
+        try:
+            ure = re.compile(until.strip('/'))
+        except re.error as e:
+            raise WeaveError(f'template line {fb.tline}: bad until= regex: {e}')
+        hit = next((q for q in range(1, len(blines) - 1) if ure.search(blines[q])), None)
+        if hit is None:
+            raise WeaveError(f"lost anchor: {fb.path}: until=/{until}/ not found in the lifted block")
+        y = fb.opts.get('yield')
+        if not y:
+            raise WeaveError(f'template line {fb.tline}: until= needs yield=')
+        for q in range(hit, len(blines) - 1):
+            blines[q] = ''
+        blines[hit] = y
+        block = '\n'.join(blines)
     params = ' '.join(' '.join(l.split()) for l, _ in fb.lift.get('params', []))
     ret = fb.lift.get('returns')
     name = fb.opts.get('name')
@@ -690,6 +709,11 @@ def process_template(tmpl_path, repo, reach=False):
             if mfrom:
                 lift_from = mfrom.group(1)
                 rest5 = rest5[:mfrom.start()] + rest5[mfrom.end():]
+            muntil = re.search(r'until=/((?:[^/\\]|\\.)*)/', rest5)
+            lift_until = None
+            if muntil:
+                lift_until = muntil.group(1)
+                rest5 = rest5[:muntil.start()] + rest5[muntil.end():]
             flags, kv = _kv(rest5.split())
             for fl in flags:
                 kv[fl] = True
@@ -700,6 +724,8 @@ def process_template(tmpl_path, repo, reach=False):
             fb.lift = dict(regex=mm.group(3), occ=int(mm.group(4)))
             if lift_from:
                 fb.lift['from'] = lift_from
+            if lift_until:
+                fb.lift['until'] = lift_until
         elif d in ('params', 'returns'):
             if fb is None or fb.lift is None:
                 raise WeaveError(f'template line {tl}: //@{d} outside //@lift')
